@@ -884,6 +884,17 @@ class X12ContextReader(object):
                     cur_data_node = self._add_segment(cur_tree, self.x12_map_node, seg, pop_loops, push_loops)
                     cur_data_node.seg_count = self.src.get_seg_count()
                     cur_data_node.cur_line_number = self.src.get_cur_line()
+                elif cur_tree is None:
+                    # The requested loop is a table (HEADER, DETAIL, FOOTER) whose first segment is
+                    # missing: the tree starts at the first of its segments that is there
+                    root_x12_node = self.x12_map_node.parent
+                    while root_x12_node.id != loop_id:
+                        root_x12_node = root_x12_node.parent
+                    inner_loops = push_loops[push_loops.index(root_x12_node) + 1:] if root_x12_node in push_loops else []
+                    cur_tree = X12LoopDataNode(x12_node=root_x12_node, end_loops=pop_loops)
+                    cur_data_node = self._add_segment(cur_tree, self.x12_map_node, seg, [], inner_loops)
+                    cur_data_node.seg_count = self.src.get_seg_count()
+                    cur_data_node.cur_line_number = self.src.get_cur_line()
                 else:
                     if cur_data_node is None or self.x12_map_node is None:
                         raise errors.EngineError('Either cur_data_node or self.x12_map_node is None')
